@@ -530,7 +530,10 @@ def judge(before, op, expect, after_model, feats, raised, obs, stage):
     if raised is not None:
         if expect == "ok" and op[0] in ("sv", "ad") and op[2] == "short":
             out.append(("shorter-padded", f"{pre}{feats[-2]} array refused", {"raised": raised, "op": op}))
-        if expect == "ok" and op[0] in ("cp", "cc", "dc") and stage == "live":
+        keeps_something = len(op) > 1 and isinstance(op[1], (list, tuple)) and any(bool(x) for x in op[1])
+        if expect == "ok" and op[0] in ("cp", "cc", "dc") and stage == "live" and keeps_something:
+            # (a mask that keeps nothing, or an empty mask on an object without elements, may be
+            # refused: the statement only asks that a failed operation leaves things consistent)
             # a masked copy with a well-formed boolean mask of the right length is not a legitimate refusal
             out.append(("masked-copy-yields-selection", f"{head} raised {raised}", {"op": op, "input": geo_feats}))
         # "an operation that fails leaves geometry and data mutually consistent"
